@@ -377,7 +377,7 @@ func (p *VipnodePool) requestHosts(ctx context.Context, nodeID string, numReques
 	}
 
 	var hosts []store.Node
-	if numRequestHosts == 0 {
+	if numRequestHosts <= 0 {
 		// Nothing left to do
 		return hosts, nil
 	}
